@@ -410,6 +410,11 @@ impl<'a> ReMatcher<'a> {
         self.state.borrow().anchored_match
     }
 
+    #[cfg(regexml_verif)]
+    pub(crate) fn verif_seen_zero_length_match(&self, repeat: &Repeat, position: usize) -> bool {
+        self.state.borrow().history.verif_seen(repeat, position)
+    }
+
     pub(crate) fn is_duplicate_zero_length_match(&self, repeat: &Repeat, position: usize) -> bool {
         self.state
             .borrow_mut()
